@@ -646,9 +646,13 @@ def fetch_symbols(ocp, spec):
                 raise Exception("%s %s: shape %s" % (what, n, s.shape))
             syms[n] = s
 
-    bind(spec.names("state"), list(ocp.states), "states")
+    # a higher-order control (hstate) is a state in the accessors and brings one hidden control with it
+    bind([s["name"] for s in spec.syms if s["kind"] in ("state", "hstate")], list(ocp.states), "states")
     bind(spec.names("qstate"), list(ocp.qstates), "qstates")
-    bind(spec.names("control"), list(ocp.controls), "controls")
+    ctrl_seq = [s["name"] if s["kind"] == "control" else None for s in spec.syms if s["kind"] in ("control", "hstate")]
+    if len(ctrl_seq) != len(list(ocp.controls)):
+        raise Exception("controls: %d expected, accessor returns %d" % (len(ctrl_seq), len(list(ocp.controls))))
+    bind([n for n in ctrl_seq if n], [c for n, c in zip(ctrl_seq, list(ocp.controls)) if n], "controls")
     bind(spec.names("algebraic"), list(ocp.algebraics), "algebraics")
     for kind, acc in (("parameter", ocp.parameters), ("variable", ocp.variables)):
         for grid, il, key in (("", False, ""), ("control", False, "control"), ("control", True, "control+")):
